@@ -15,6 +15,19 @@ Static rules (DESIGN.md §C06, engine sa/tabchain.py):
  xyz-slots    The three feature slots (ix+0, ix+1, ix+2) that lcao_interpolation.py passes to the
               add_lp1_* functions are paired in C with the Cartesian component of the same number
               (coords[3g+c], dirs[3d+c], tmp[3a+c]); fill_l1_coeff_* write component c to column offset+c.
+ sph-twin     recursive_sph_harm and recursive_sph_harm_deriv, executed abstractly with their loops unrolled
+              for lmax = 6 (literal bounds, input-independent control flow; products expanded, complex parts
+              separated, FAC_LIST read from its initialiser, calloc'ed work arrays read as 0), store identical
+              polynomials in r[0..2] and the recursion coefficients for all 49 (l, m)
+ setup-invariance  Python set-up code (pyscf/*.py, dft/lcao_*.py, grids_indexer.py): values derived from
+              mol.atom_coords()/atom_coord() reach call arguments, returns, stores or branch conditions only
+              through differences of positions reduced by norm / dot / sum of squares over the Cartesian axis
+              (or cdist/pdist); single components, component-wise reductions over atoms and norms of absolute
+              positions are frame dependent (sa/posflow.py).  Whole arrays handed to C / pyscf are not followed.
+ key-domain   per-atom tables are filled, tested (`in`) and read with keys from one key function
+              (atom_symbol vs atom_pure_symbol); a once-per-key block (`if k not in D:`) reads only tables of
+              that key kind; tables returned by gen_atomic_grids_cider are looked up with the producer's key
+              function in AtomicGridsIndexer.from_tabs
  translation  In every function of conv_interpolation.c / fast_sdmx.c that receives both grid coordinates and
               atom coordinates, each read of a coordinate is an operand of a subtraction whose other
               operand is the same Cartesian component of the other kind (or of the same kind), or a pure
@@ -375,6 +388,81 @@ def rule_l1_order(chk, tus):
 
 
 # ----------------------------------------------------------------------------------------------
+# sph-twin: the two generators of real spherical harmonics produce the same values
+# ----------------------------------------------------------------------------------------------
+SPH_LMAX = 6
+
+
+def sph_unrolled(tu, fname, lmax, zero_roots, garrays):
+    """res[0 .. (lmax+1)^2) of one generator as polynomials in r[0..2] and the (symbolic) recursion
+    coefficients: the loops are executed concretely for buf.lmax = lmax (literal bounds, input-independent
+    control flow), products are expanded so that real and imaginary parts stay separable."""
+    ps = tu.params(fname)
+    rp = [p for p in ps if "double *" in p.get("type", {}).get("qualType", "")]
+    if len(rp) < 2 or "sphbuf" not in ps[0].get("type", {}).get("qualType", ""):
+        raise core.AnalysisError("%s: expected (sphbuf buf, double *r, double *res, ...)" % fname)
+    ev = tc.Ev(tu)
+    ev.unroll = True
+    ev.expand = True
+    ev.concrete = {"member:sphbuf.lmax": lmax, "member:sphbuf.lp1": lmax + 1, "member:sphbuf.nlm": (lmax + 1) ** 2}
+    env = tc.new_env({rp[0]["id"]: "R", rp[1]["id"]: "RES"})
+    env["zero_roots"] = set(zero_roots)
+    for name, vals in garrays.items():
+        for i, v in enumerate(vals):
+            env["mem"][("ptr:" + name, Poly.const(i).canon())] = Poly.const(v)
+    ev.block(tu.body(fname), env)
+    out = {}
+    for (root, idx), v in env["mem"].items():
+        if root == "RES":
+            k = Poly(dict(idx)).const_value()
+            if k is None:
+                raise core.AnalysisError("%s: store to res at a non-constant index after unrolling" % fname)
+            out[int(k)] = v
+    return out
+
+
+def rule_sph_twin(chk, tus):
+    tu = tus[C_SPH]
+    for fn in ("recursive_sph_harm", "recursive_sph_harm_deriv", "setup_sph_harm_buffer"):
+        tu.func(fn)
+    # buffers that setup_sph_harm_buffer leaves zero (calloc'ed, only zeros stored): entries that a generator
+    # never writes read as 0
+    ev0 = tc.Ev(tu)
+    ev0.lenient = True
+    env0 = tc.new_env()
+    ev0.block(tu.body("setup_sph_harm_buffer"), env0)
+    nonzero = {st["root"].split("@")[0] for st in env0["stores"] if st["value"].t}
+    zero = {k.split("@")[0] for k, how in env0["allocs"].items() if how == "calloc"} - nonzero
+    ga = tc.global_const_arrays(tu)
+    a = sph_unrolled(tu, "recursive_sph_harm", SPH_LMAX, zero, ga)
+    b = sph_unrolled(tu, "recursive_sph_harm_deriv", SPH_LMAX, zero, ga)
+    nlm = (SPH_LMAX + 1) ** 2
+    if sorted(a) != list(range(nlm)) or sorted(b) != list(range(nlm)):
+        raise core.AnalysisError("generators do not fill res[0..%d) for lmax=%d (%d / %d entries)" % (
+            nlm, SPH_LMAX, len(a), len(b)))
+    chk.count("(l,m) values compared", nlm)
+    for k in range(nlm):
+        l = int(k ** 0.5)
+        while (l + 1) ** 2 <= k:
+            l += 1
+        while l * l > k:
+            l -= 1
+        m = k - l * l - l
+        inst = "Y(l=%d, m=%+d): recursive_sph_harm == recursive_sph_harm_deriv" % (l, m)
+        if not a[k].t and l > 0:
+            raise core.AnalysisError("recursive_sph_harm: res[%d] evaluates to 0; the abstract evaluation lost the value" % k)
+        if a[k] == b[k]:
+            chk.ok("sph-twin", inst, nontrivial=l > 1)
+        else:
+            what = "opposite sign" if a[k] == -b[k] else "different value"
+            chk.violation("sph-twin", F[C_SPH], "recursive_sph_harm", "res[%d] (l=%d, m=%+d)" % (k, l, m),
+                          tu.line_of(tu.func("recursive_sph_harm")),
+                          "the real spherical harmonic l=%d, m=%+d has %s in recursive_sph_harm and in "
+                          "recursive_sph_harm_deriv (loops executed for lmax=%d): %s  vs  %s" % (
+                              l, m, what, SPH_LMAX, a[k].text()[:110], b[k].text()[:110]), instance=inst)
+
+
+# ----------------------------------------------------------------------------------------------
 # xyz-slots
 # ----------------------------------------------------------------------------------------------
 def py_slot_calls(tree):
@@ -631,23 +719,238 @@ def _passes_pointer(tu, fname, seeds):
 
 
 # ----------------------------------------------------------------------------------------------
+# setup-invariance: python set-up quantities derived from atomic positions
+# ----------------------------------------------------------------------------------------------
+SETUP_GLOBS = ["ciderpress/pyscf/*.py", "ciderpress/dft/lcao_*.py", "ciderpress/dft/grids_indexer.py"]
+POS_PARAMS = ("atom_coords", "atom_coord", "atm_coord", "atm_coords")
+
+
+def rule_setup_invariance(chk):
+    from sa import posflow
+    rels = []
+    for g in SETUP_GLOBS:
+        rels += [r for r in chk.tree.glob(g) if "/tests/" not in r]
+    if len(rels) < 8:
+        raise core.AnalysisError("set-up modules not found (%d files)" % len(rels))
+    nsrc = ninv = 0
+    for rel in sorted(set(rels)):
+        mod = chk.tree.py(rel)
+        for fn in ast.walk(mod):
+            if not isinstance(fn, (ast.FunctionDef, ast.AsyncFunctionDef)):
+                continue
+            mentions = any((isinstance(n, ast.Attribute) and n.attr in posflow.SOURCES) or
+                           (isinstance(n, ast.arg) and n.arg in POS_PARAMS) for n in ast.walk(fn))
+            if not mentions:
+                continue
+            ff = posflow.FunctionFlow(rel, fn, POS_PARAMS).run()
+            q = pf.qualname(fn)
+            bad_origins = {id(f[0]) for f in ff.findings}
+            for src in ff.sources:
+                nsrc += 1
+                chk.ok("setup-invariance", "%s:%s positions from %s" % (rel, q, pf.src(src)[:60]), nontrivial=bool(ff.invariants))
+            for inv in ff.invariants:
+                ninv += 1
+                chk.ok("setup-invariance", "%s:%s invariant reduction %s" % (rel, q, pf.src(inv)[:80]))
+            for origin, why, sink, what in ff.findings:
+                chk.violation("setup-invariance", rel, q, pf.src(origin), getattr(origin, "lineno", fn.lineno),
+                              "`%s` %s; the result is %s (line %s).  A quantity derived from atomic positions must be "
+                              "built from differences of positions reduced by norm / dot / sum of squares over the "
+                              "Cartesian axis, otherwise it changes when the molecule is rotated or translated" % (
+                                  pf.src(origin)[:90], why, what, getattr(sink, "lineno", "?")),
+                              instance="%s:%s %s -> %s" % (rel, q, pf.src(origin)[:60], what))
+    chk.count("position sources in set-up code", nsrc)
+    chk.count("invariant reductions recognised", ninv)
+
+
+# ----------------------------------------------------------------------------------------------
+# key-domain: per-atom tables are written and read with the same kind of key
+# ----------------------------------------------------------------------------------------------
+KEY_FUNCS = ("atom_symbol", "atom_pure_symbol")
+KEY_FILES = ["ciderpress/pyscf/gen_cider_grid.py", "ciderpress/dft/grids_indexer.py"]
+
+
+def _key_kinds(fn):
+    """{local name: key function} for names assigned (only) from mol.<key function>(...)"""
+    kinds = {}
+    assigns = sorted((n for n in pf.walk_no_nested(fn) if isinstance(n, ast.Assign)), key=lambda n: (n.lineno, n.col_offset))
+    for n in assigns:
+        if len(n.targets) == 1 and isinstance(n.targets[0], ast.Name):
+            v = n.value
+            k = v.func.attr if isinstance(v, ast.Call) and isinstance(v.func, ast.Attribute) and v.func.attr in KEY_FUNCS else None
+            if k is None and isinstance(v, ast.Name) and kinds.get(v.id):
+                k = kinds[v.id]  # plain copy of a key
+            nm = n.targets[0].id
+            if nm in kinds and kinds[nm] != k:
+                kinds[nm] = "<mixed>"
+            elif nm not in kinds:
+                kinds[nm] = k
+    return {a: b for a, b in kinds.items() if b}
+
+
+def _kind_of(e, kinds):
+    if isinstance(e, ast.Name):
+        return kinds.get(e.id)
+    if isinstance(e, ast.Call) and isinstance(e.func, ast.Attribute) and e.func.attr in KEY_FUNCS:
+        return e.func.attr
+    return None
+
+
+def _table_accesses(fn, kinds):
+    """[(table name, key kind, node, 'store'|'load'|'member')] for T[k] and `k in T` with a classified key"""
+    out = []
+    for n in pf.walk_no_nested(fn):
+        if isinstance(n, ast.Subscript) and isinstance(n.value, ast.Name):
+            k = _kind_of(n.slice, kinds)
+            if k:
+                out.append((n.value.id, k, n, "store" if isinstance(n.ctx, ast.Store) else "load"))
+        if isinstance(n, ast.Compare) and len(n.ops) == 1 and isinstance(n.ops[0], (ast.In, ast.NotIn)) \
+                and isinstance(n.comparators[0], ast.Name):
+            k = _kind_of(n.left, kinds)
+            if k:
+                out.append((n.comparators[0].id, k, n, "member"))
+    return out
+
+
+def rule_key_domain(chk):
+    funcs = {}
+    for rel in KEY_FILES:
+        mod = chk.tree.py(rel)
+        for fn in ast.walk(mod):
+            if isinstance(fn, (ast.FunctionDef, ast.AsyncFunctionDef)):
+                funcs.setdefault(fn.name, []).append((rel, fn))
+    table_kind = {}  # (rel, qualname, table) -> kind
+    n_tabs = 0
+    for name, lst in sorted(funcs.items()):
+        for rel, fn in lst:
+            kinds = _key_kinds(fn)
+            acc = _table_accesses(fn, kinds)
+            q = pf.qualname(fn)
+            by_tab = {}
+            for t, k, node, how in acc:
+                by_tab.setdefault(t, []).append((k, node, how))
+            for t, lst2 in sorted(by_tab.items()):
+                ks = sorted({k for k, _, _ in lst2})
+                inst = "%s:%s table %s keyed by %s" % (rel, q, t, "/".join(ks))
+                n_tabs += 1
+                if len(ks) == 1 and ks[0] != "<mixed>":
+                    chk.ok("key-domain", inst)
+                    table_kind[(rel, q, t)] = ks[0]
+                else:
+                    node = lst2[-1][1]
+                    chk.violation("key-domain", rel, q, "%s accessed with %s" % (t, ", ".join(ks)), node.lineno,
+                                  "table %s is indexed with keys produced by different key functions (%s): atoms whose "
+                                  "label differs from the element symbol ('O1', 'O2') hit the wrong entry or none" % (
+                                      t, ", ".join(ks)), instance=inst)
+            # memo guards: `if k2 not in D:` body (or the else of `if k2 in D:`) reading T[k1] with another key kind
+            for n in pf.walk_no_nested(fn):
+                if not isinstance(n, ast.If) or not isinstance(n.test, ast.Compare) or len(n.test.ops) != 1:
+                    continue
+                op = n.test.ops[0]
+                if not isinstance(op, (ast.In, ast.NotIn)):
+                    continue
+                k2 = _kind_of(n.test.left, kinds)
+                if not k2:
+                    continue
+                block = n.body if isinstance(op, ast.NotIn) else n.orelse
+                inst = "%s:%s once-per-%s block at `%s`" % (rel, q, k2, pf.src(n.test))
+                bad = []
+                for st in block:
+                    for x in ast.walk(st):
+                        if isinstance(x, ast.Subscript) and isinstance(x.ctx, ast.Load):
+                            k1 = _kind_of(x.slice, kinds)
+                            if k1 and k1 != k2:
+                                bad.append((x, k1))
+                if bad:
+                    x, k1 = bad[0]
+                    chk.violation("key-domain", rel, q, "%s under `%s`" % (pf.src(x), pf.src(n.test)), x.lineno,
+                                  "a block executed once per %s key reads %s, which is keyed by %s: atoms that share the "
+                                  "%s but not the %s (labelled atoms with their own grids) get the data of the first one" % (
+                                      k2, pf.src(x), k1, k2, k1), instance=inst)
+                else:
+                    chk.ok("key-domain", inst)
+    # producer -> consumer: names unpacked from a call of a scoped function and passed on to another one
+    n_links = 0
+    for name, lst in sorted(funcs.items()):
+        for rel, fn in lst:
+            q = pf.qualname(fn)
+            origin = {}  # local name -> (producer rel, producer qualname, returned name)
+            for n in pf.walk_no_nested(fn):
+                if isinstance(n, ast.Assign) and len(n.targets) == 1 and isinstance(n.targets[0], ast.Tuple) \
+                        and isinstance(n.value, ast.Call):
+                    cn = (pf.call_name(n.value) or "").split(".")[-1]
+                    if cn in funcs and len(funcs[cn]) == 1:
+                        prel, pfn = funcs[cn][0]
+                        rets = [r for r in pf.walk_no_nested(pfn) if isinstance(r, ast.Return) and isinstance(r.value, ast.Tuple)]
+                        if len(rets) == 1 and len(rets[0].value.elts) == len(n.targets[0].elts):
+                            for t, r in zip(n.targets[0].elts, rets[0].value.elts):
+                                if isinstance(t, ast.Name) and isinstance(r, ast.Name):
+                                    origin[t.id] = (prel, pf.qualname(pfn), r.id)
+            if not origin:
+                continue
+            for n in pf.walk_no_nested(fn):
+                if not isinstance(n, ast.Call):
+                    continue
+                cn = (pf.call_name(n) or "").split(".")[-1]
+                if cn not in funcs or len(funcs[cn]) != 1:
+                    continue
+                crel, cfn = funcs[cn][0]
+                params = [a.arg for a in cfn.args.args]
+                if params and params[0] in ("self", "cls"):
+                    params = params[1:]
+                for i, a in enumerate(n.args):
+                    if isinstance(a, ast.Name) and a.id in origin and i < len(params):
+                        pk = table_kind.get(origin[a.id])
+                        ck = table_kind.get((crel, pf.qualname(cfn), params[i]))
+                        if pk is None or ck is None:
+                            continue
+                        n_links += 1
+                        inst = "%s.%s (%s) -> %s.%s (%s)" % (origin[a.id][1], origin[a.id][2], pk, pf.qualname(cfn), params[i], ck)
+                        if pk == ck:
+                            chk.ok("key-domain", inst)
+                        else:
+                            chk.violation("key-domain", crel, pf.qualname(cfn), "%s[...] keyed by %s" % (params[i], ck),
+                                          cfn.lineno,
+                                          "%s fills table %s with %s keys, but %s (called from %s) looks it up with %s keys" % (
+                                              origin[a.id][1], origin[a.id][2], pk, pf.qualname(cfn), q, ck), instance=inst)
+    chk.count("per-atom tables classified", n_tabs)
+    chk.count("producer/consumer table links", n_links)
+    if n_links < 1:
+        raise core.AnalysisError("no producer -> consumer link between the per-symbol tables was found")
+
+
+# ----------------------------------------------------------------------------------------------
 def _analyse_own(chk):
     chk.rule("l1-order", "l=1 slot <-> Cartesian axis map agrees between sph_harm.c (source), grids_indexer.dirs, "
                          "SDMXylm_yzx2xyz and the derivative-table rows")
+    chk.rule("sph-twin", "recursive_sph_harm and recursive_sph_harm_deriv give identical polynomials for every (l,m), l <= %d "
+                         "(loops executed concretely)" % SPH_LMAX)
     chk.rule("xyz-slots", "feature slots ix+c are paired with Cartesian component c in the add_lp1_* / fill_l1_coeff_* functions")
+    chk.rule("setup-invariance", "python set-up values derived from mol.atom_coords() reach scalars only through "
+                                 "rotation/translation-invariant reductions of position differences")
+    chk.rule("key-domain", "per-atom tables are filled, tested and read with keys from one key function; once-per-key "
+                           "blocks read only tables of that key kind; producer and consumer agree")
     chk.rule("translation", "grid and atom coordinates enter only as differences of equal components")
     tus = cfacts.load_all(chk.tree, [C_SDMX, C_INTERP, C_SPH], jobs=3)
     chk.count("C translation units", 3)
     chk.guard(rule_l1_order, tus)
+    chk.guard(rule_sph_twin, tus)
     chk.guard(rule_xyz_slots, tus)
     chk.guard(rule_translation, tus)
+    chk.guard(rule_setup_invariance)
+    chk.guard(rule_key_domain)
     chk.floor("l1-order", 17, "2 generators + dirs + reorder + 3 consumers x 5 rows = 19")
+    chk.floor("sph-twin", 49, "(6+1)^2 values")
     chk.floor("xyz-slots", 15, "5 C functions x 3 slots + 2 column layouts")
+    chk.floor("setup-invariance", 12, "15 position sources + 2 invariant reductions")
+    chk.floor("key-domain", 14, "12 tables + 1 once-per-key block + 4 producer/consumer links")
     chk.floor("translation", 110, "coordinate reads in 18 functions with uses (124 today)")
     chk.assumptions += [
         "clebsch_gordan_e3nn orders the real l=1 basis as m=-1,0,+1 (Wikipedia real form, the order sph_harm.c "
         "produces); read on the pinned tree",
         "r[0], r[1], r[2] and coords[3g+0..2] are the x, y, z Cartesian components (PySCF convention)",
+        "sph-twin compares the two generators up to lmax = %d only (FAC_LIST has 24 entries; the recursion is uniform "
+        "in l, but a defect that first shows at l > %d is not seen)" % (SPH_LMAX, SPH_LMAX),
+        "setup-invariance is intraprocedural: positions stored on an object and reduced in another method are not followed",
         "coordinate parameters are recognised by type double* and the frozen name lists %s / %s" % (
             sorted(G_NAMES), sorted(A_NAMES)),
     ]
@@ -709,9 +1012,39 @@ def mutants(tree):
                expect="translation"),
         Mutant("SDMX l1 term uses absolute grid coordinate", F[C_SDMX], "_vbas0[g] * (_gridy[g] - atomy[ia]);", "_vbas0[g] * (_gridy[g]);",
                expect="translation"),
+        Mutant("recursive_sph_harm: sign of the sine-type harmonics flipped", F[C_SPH],
+               "res[lm - m - 1] = FAC_LIST[m] * cimag(ylm[ind + lp1 + 1]);", "res[lm - m - 1] = -FAC_LIST[m] * cimag(ylm[ind + lp1 + 1]);",
+               expect="sph-twin"),
+        Mutant("FAC_LIST entry with the wrong sign", F[C_SPH], "{-SQRT2, SQRT2, -SQRT2, SQRT2, -SQRT2, SQRT2,", "{-SQRT2, SQRT2, -SQRT2, -SQRT2, -SQRT2, SQRT2,",
+               expect="sph-twin"),
+        Mutant("deriv generator never flips fac", F[C_SPH], "            dresz[indp1] = fac * creal(dylmz[ind]);\n            fac = -fac;",
+               "            dresz[indp1] = fac * creal(dylmz[ind]);", expect="sph-twin"),
+        Mutant("alpha0 from the bounding box", "ciderpress/pyscf/sdmx.py",
+               "dist = np.linalg.norm(coords[:, None, :] - coords[None, :, :], axis=2)\n            max_dist = np.max(dist)",
+               "extent = np.max(coords, axis=0) - np.min(coords, axis=0)\n            max_dist = np.linalg.norm(extent)", expect="setup-invariance"),
+        Mutant("norm taken over the atom axis", "ciderpress/pyscf/sdmx_slow.py",
+               "dist = np.linalg.norm(coords[:, None, :] - coords[None, :, :], axis=2)",
+               "dist = np.linalg.norm(coords[:, None, :] - coords[None, :, :], axis=0)", expect="setup-invariance"),
+        Mutant("alpha0 from the extent along x", "ciderpress/pyscf/sdmx_slow.py", "max_dist = np.max(dist)", "max_dist = np.ptp(coords[:, 0])",
+               expect="setup-invariance"),
+        Mutant("indexer looks tables up by element", GI, "symb = mol.atom_symbol(ia)", "symb = mol.atom_pure_symbol(ia)", expect="key-domain"),
+        Mutant("grid tables filled per element", "ciderpress/pyscf/gen_cider_grid.py", "        symb = mol.atom_symbol(ia)\n",
+               "        symb = mol.atom_pure_symbol(ia)\n", expect="key-domain"),
+        Mutant("ylm tables shared per element", GI, fn=_share_ylm, expect="key-domain"),
         Mutant("SDMXylm_loop: atom y taken from z", F[C_SDMX], "gridy[g] - atom_coords[3 * ia + 1];", "gridy[g] - atom_coords[3 * ia + 2];",
                expect="translation"),
     ]
+
+
+def _share_ylm(text):
+    a = "            full_ylm = np.append(full_ylm, ylm_tab[symb], axis=0)\n"
+    b = "            symb = mol.atom_symbol(ia)\n"
+    if a not in text or b not in text or "full_ylm = np.empty((0, nlm), dtype=np.float64)\n" not in text:
+        return None
+    t = text.replace("full_ylm = np.empty((0, nlm), dtype=np.float64)\n",
+                     "full_ylm = np.empty((0, nlm), dtype=np.float64)\n        seen = set()\n", 1)
+    t = t.replace(b, b + "            elem = mol.atom_pure_symbol(ia)\n", 1)
+    return t.replace(a, "            if elem not in seen:\n                seen.add(elem)\n    " + a, 1)
 
 
 if __name__ == "__main__":
